@@ -120,6 +120,7 @@ Record snap := mkSnap {
   sn_markers : nat;                                   (* processing markers left *)
   sn_wal : nat;                                       (* open WAL entries *)
   sn_diffs : nat;                                     (* total number of diffs reported by the node resource check *)
+  sn_eng : list (wid * res);                          (* id, the parameters the stored record hands to the engine (cpu, memory) *)
 }.
 
 Definition cstate_code (c : cstate) : Z := match c with CCreated => 0 | CRunning => 1 | CStopped => 2 end.
@@ -131,7 +132,9 @@ Definition snap_of (w : world) : snap :=
          (map (fun x => (w_id x, w_pod x, w_res x)) (wls w))
          (map (fun x => (w_id x, w_node x)) (wls w))
          (map (fun c => (c_id c, cstate_code (c_state c))) (conts w))
-         (length (markers w)) (length (walq w)) 0.
+         (length (markers w)) (length (walq w)) 0
+         (* the model keeps one value for a record's resources and its engine parameters: they always agree *)
+         (map (fun x => (w_id x, w_res x)) (wls w)).
 
 Definition enc_snap (s : snap) : list (list Z) :=
   map (fun p => [100; zn p]) (sn_pods s)
@@ -140,7 +143,8 @@ Definition enc_snap (s : snap) : list (list Z) :=
   ++ map (fun x => let '(i, p, r) := x in 103 :: enc_wid i ++ [zn p; fst r; snd r]) (sn_wls s)
   ++ map (fun x => 104 :: enc_wid (fst x) ++ [zn (snd x)]) (sn_wl_nodes s)
   ++ map (fun x => 105 :: enc_wid (fst x) ++ [snd x]) (sn_conts s)
-  ++ [[106; zn (sn_markers s)]; [107; zn (sn_wal s)]].
+  ++ [[106; zn (sn_markers s)]; [107; zn (sn_wal s)]]
+  ++ map (fun x => 108 :: enc_wid (fst x) ++ [fst (snd x); snd (snd x)]) (sn_eng s).
 
 (* ---- trace comparison: multiset of (method, target) of the calls made ---- *)
 Definition enc_lock (k : lockkey) : list Z :=
@@ -294,7 +298,8 @@ Definition proj_c11 (s : snap) : list (list Z) :=
   ++ map (fun x => let '(n, p, b, a) := x in [101; zn n; zn p; enc_bool b; enc_bool a]) (sn_nodes s)
   ++ map (fun x => let '(n, c, u) := x in [102; zn n; fst c; snd c; fst u; snd u]) (sn_plugs s)
   ++ map (fun x => let '(i, p, r) := x in 103 :: enc_wid i ++ [zn p; fst r; snd r]) (sn_wls s)
-  ++ map (fun x => 104 :: enc_wid (fst x) ++ [zn (snd x)]) (sn_wl_nodes s).
+  ++ map (fun x => 104 :: enc_wid (fst x) ++ [zn (snd x)]) (sn_wl_nodes s)
+  ++ map (fun x => 108 :: enc_wid (fst x) ++ [fst (snd x); snd (snd x)]) (sn_eng s).
 
 Definition rscale (k : Z) (r : res) : res := (k * fst r, k * snd r).
 
@@ -307,7 +312,8 @@ Definition without_wls (s : snap) (ids : list wid) : snap :=
          (map (fun x => let '(n, c, u) := x in (n, c, rsub u (freed n))) (sn_plugs s))
          (filter (fun x => negb (gone (fst (fst x)))) (sn_wls s))
          (filter (fun x => negb (gone (fst x))) (sn_wl_nodes s))
-         (sn_conts s) (sn_markers s) (sn_wal s) (sn_diffs s).
+         (sn_conts s) (sn_markers s) (sn_wal s) (sn_diffs s)
+         (filter (fun x => negb (gone (fst x))) (sn_eng s)).
 
 Definition with_wls (s : snap) (pod : name) (new : list (wid * res)) : snap :=
   let added n := rsum (flat_map (fun x => if Nat.eqb (wi_node (fst x)) n then [snd x] else []) new) in
@@ -315,7 +321,8 @@ Definition with_wls (s : snap) (pod : name) (new : list (wid * res)) : snap :=
          (map (fun x => let '(n, c, u) := x in (n, c, radd u (added n))) (sn_plugs s))
          (sn_wls s ++ map (fun x => (fst x, pod, snd x)) new)
          (sn_wl_nodes s ++ map (fun x => (fst x, wi_node (fst x))) new)
-         (sn_conts s) (sn_markers s) (sn_wal s) (sn_diffs s).
+         (sn_conts s) (sn_markers s) (sn_wal s) (sn_diffs s)
+         (sn_eng s ++ new).
 
 Definition created_of (ms : list msg) : list (wid * res) :=
   flat_map (fun m => match m with MCreateOk i r => [(i, r)] | _ => [] end) ms.
@@ -356,7 +363,9 @@ Definition c11_step_ok (before : snap) (st : step) : bool :=
                                     | Some (_, new) => (new, p, r) | None => x end) (sn_wls before))
                      (map (fun x => match find (fun pr => wid_eqb (fst pr) (fst x)) ok_pairs with
                                     | Some (_, new) => (new, snd x) | None => x end) (sn_wl_nodes before))
-                     (sn_conts before) (sn_markers before) (sn_wal before) (sn_diffs before) in
+                     (sn_conts before) (sn_markers before) (sn_wal before) (sn_diffs before)
+                     (map (fun x => match find (fun pr => wid_eqb (fst pr) (fst x)) ok_pairs with
+                                    | Some (_, new) => (new, snd x) | None => x end) (sn_eng before)) in
           same_multiset (proj_c11 after) (proj_c11 swapped))
     | OLambda _ _ _ _ _ _ _ => true
     end.
@@ -472,7 +481,7 @@ Definition compensation_fault (o : op) (f : cfault) : bool :=
 Definition in_scope (c : case) : bool :=
   forallb (fun st => match s_fault st with Some f => negb (compensation_fault (s_op st) f) | None => true end) (c_steps c).
 
-Definition empty_snap : snap := mkSnap [] [] [] [] [] [] 0 0 0.
+Definition empty_snap : snap := mkSnap [] [] [] [] [] [] 0 0 0 [].
 
 Fixpoint fold_steps (f : snap -> step -> bool) (before : snap) (l : list step) : bool :=
   match l with
